@@ -7,7 +7,7 @@
     here depends on stability.  [isort] (used by the evaluator) is one. *)
 From Coq Require Import ZArith NArith List Bool Permutation Sorted String.
 From AGH Require Import Base.Run Model.Rewrites Proofs.Rewrites Model.RewritesEdit Proofs.RewritesEdit
-  Proofs.RewritesShadow Model.RewritesCache Proofs.RewritesCache Proofs.RewritesChain.
+  Proofs.RewritesShadow Model.RewritesCache Proofs.RewritesCache Proofs.RewritesChain Proofs.RewritesFirst.
 Import ListNotations.
 
 Definition is_sort (sort : list entry -> list entry) : Prop :=
@@ -922,3 +922,47 @@ Proof.
         (conj ChainExamples.bounded_16_agrees_up_to_16 ChainExamples.bounded_3_stops)).
 Qed.
 Print Assumptions C06_chase_bounded_witness.
+
+(** * Round 8: the rewrite's CNAME is always the first record (seeded change
+    C06-P: the CNAME is skipped when the upstream's answer starts with one)
+
+    For EVERY upstream answer to the canonical name (empty, a CNAME chain of
+    the upstream's own first, a CNAME only, odd orders, other types first):
+    the first record of the reply is owned by the queried name and points at
+    the canonical name, the rest is the upstream's answer unchanged, under
+    the client's question and the upstream's RCODE. *)
+Theorem C06_rewrite_cname_always_first :
+  forall sort (upstream : bytes -> N -> N * list rr) enabled tbl qname qt r rc ans,
+    check_host sort enabled tbl qname qt = Some r ->
+    r_reason r = Rewritten -> r_canon r <> [] -> r_ips r = [] ->
+    covered_flag sort enabled tbl qname qt = false ->
+    upstream (r_canon r) qt = (rc, ans) ->
+    exists p, respond sort upstream enabled tbl qname qt = Some p /\
+      hd_error (rp_answer p) = Some (RR_CNAME qname (r_canon r)) /\
+      tl (rp_answer p) = ans /\ rp_qname p = qname /\ rp_rcode p = rc.
+Proof. exact rewrite_cname_always_first. Qed.
+Print Assumptions C06_rewrite_cname_always_first.
+
+(** The variant that skips the CNAME when the answer starts with a CNAME
+    record ([respond_skip], the seeded change C06-P) is refuted: `www.shop.test
+    -> shop.cdn.example`, upstream answer `shop.cdn.example CNAME edge.cdn.net,
+    edge.cdn.net A 9.9.9.9`: no record of the reply is owned by the queried
+    name. *)
+Theorem C06_rewrite_cname_skipped_refuted :
+  ~ (forall upstream en tbl qname qt p r,
+       check_host isort en tbl qname qt = Some r -> r_reason r = Rewritten ->
+       r_canon r <> [] -> r_ips r = [] -> covered_flag isort en tbl qname qt = false ->
+       respond_skip upstream en tbl qname qt = Some p ->
+       hd_error (rp_answer p) = Some (RR_CNAME qname (r_canon r))).
+Proof. exact FirstExamples.skip_refuted. Qed.
+Print Assumptions C06_rewrite_cname_skipped_refuted.
+
+Theorem C06_rewrite_cname_first_example :
+  respond isort FirstExamples.up_cdn true FirstExamples.tbl (bs "www.shop.test") qA =
+    Some {| rp_qname := bs "www.shop.test"; rp_rcode := 0;
+            rp_answer := [RR_CNAME (bs "www.shop.test") (bs "shop.cdn.example");
+                          RR_CNAME (bs "shop.cdn.example") (bs "edge.cdn.net");
+                          RR_A (bs "edge.cdn.net") 151587081];
+            rp_upstream := [(bs "shop.cdn.example", qA)] |}.
+Proof. exact FirstExamples.head_reply. Qed.
+Print Assumptions C06_rewrite_cname_first_example.
